@@ -383,6 +383,14 @@ def gen_inputs(tier, rnd):
             if sheet > 1 and rnd.random() < 0.5 and sheet <= len(logical):
                 continue
             yield {"kind": "doc", "tables": tables, "logical": logical, "sheet": sheet, "encoding": enc}
+    # long runs of empty rows between data rows (spreadsheet applications write them): every one of them is a row of the table
+    def plain(v, rep=None):
+        return {"rep": rep, "paras": [[["t", v]]] if v else []}
+    for n in (2, 999, 1000, 1001, 1500):
+        for empty_cells, width in (([plain("", "2")], 2), ([], 0), ([plain("")], 1)):
+            tables = [[{"rep": None, "cells": [plain("a"), plain("b")]}, {"rep": str(n), "cells": empty_cells}, {"rep": None, "cells": [plain("c"), plain("d")]}]]
+            logical = [[["a", "b"]] + [[""] * width for _ in range(n)] + [["c", "d"]]]
+            yield {"kind": "doc", "tables": tables, "logical": logical, "sheet": 1, "encoding": "UTF-8"}
     # repeat counts that are not positive integers, at each of the three places; and odd but valid spellings
     for bad in BAD_COUNTS + ODD_COUNTS:
         for place in ("cell", "row", "s"):
